@@ -87,7 +87,7 @@ def run(tier):
                 meta[cid] = (arch, typ, ms, extra)
     by, crashes = core.run_cases(exe, lines, 'asan')
     for ln, key, err, rc in crashes:
-        ck.harness_error('driver died while saving: %s %s' % (key, ln[:200]))
+        ck.violation('crash-on-save/%s' % key, {'driver': 'drv_doc', 'variant': 'asan', 'case': ln[:400000], 'stderr': err[-1500:]}, 'process died while saving: ' + key)
     lines2, meta2 = [], {}
     for cid, e in by.items():
         if e.get('out') != 'ok':
